@@ -33,6 +33,16 @@ def MC(name, module, cfg, cfg_thorough=None, **kw):
 
 MC_PROPS = MC("l1-props", "MC_L1", "MC_L1_props_quick.cfg", "MC_L1_props.cfg", workers=12)
 
+def AUX(name, aux, n, **kw):
+    d = {"kind": "aux", "name": name, "aux": aux, "n": n}
+    d.update(kw)
+    return d
+
+
+def LAWS(family, **kw):
+    return MC("laws-" + family, "MC_Laws", "MC_Laws_%s.cfg" % family, workers=12, **kw)
+
+
 PLANS = {}
 REPLAYS = {}
 
@@ -159,3 +169,56 @@ PLANS["C19"] = {
         T("io", "io", (60, 1500), ["InvC19", "InvExportFile", "InvValue"]),
     ],
 }
+
+AUX_ASSUME = [
+    "the abstraction alpha/gamma of DESIGN.md section 4 (hand-ordered leaf tables, strict alpha)",
+    "observations are made through public API only (query.Criteria.Satisfy, index.RangeIndex, document.Document, store.Store)",
+    "TLC 1.8 evaluates the specification correctly",
+]
+
+PLANS["C10"] = {
+    "level": "model_checking",
+    "assumptions": AUX_ASSUME + ["integers beyond 2^53 are compared among integers only; key-order agreement is claimed for "
+                                 "numbers within 2^53 and times from 1970 on (flags keydom in the trace)"],
+    "stages": [
+        LAWS("values"),
+        AUX("values", "values", (64, 130), reps=(3, 9), chunk=1, heap="8g"),
+        T("extremes", "extremes", (12, 200), ["InvC01", "InvC08"]),
+        T("floats", "floats", (12, 200), ["InvC01", "InvC08"]),
+    ],
+}
+
+PLANS["C16"] = {
+    "level": "model_checking",
+    "assumptions": AUX_ASSUME,
+    "stages": [
+        LAWS("criteria"),
+        AUX("satisfy", "satisfy", (250, 5000), reps=(2, 4)),
+        T("algebra", "algebra", (40, 1000), ["InvC01"]),
+    ],
+}
+
+PLANS["C17"] = {
+    "level": "model_checking",
+    "assumptions": AUX_ASSUME + ["a nil bound that is included denotes the value nil, one that is not included an open end "
+                                 "(DESIGN.md section 10)"],
+    "stages": [
+        LAWS("ranges", tier="thorough"),
+        AUX("scan", "scan", (60, 1500)),
+        AUX("intersect", "intersect", (1500, 40000), chunk=300),
+    ],
+}
+
+PLANS["C18"] = {
+    "level": "model_checking",
+    "assumptions": AUX_ASSUME + ["struct values come from a hand-written catalogue of types (harness/norm.go); []byte / [N]byte "
+                                 "are special-cased by clover and excluded"],
+    "stages": [
+        LAWS("norm"),
+        LAWS("paths"),
+        AUX("norm", "norm", (1500, 40000)),
+        AUX("docpath", "docpath", (400, 10000)),
+    ],
+}
+
+PLANS["C15"]["stages"].append(AUX("cursor", "cursor", (60, 1500)))
